@@ -136,6 +136,10 @@ def one_update(world, prefix, op, counters, digests, violations, known, rng, sam
             # only the division node's OWN zero division yields nan)
             exc_cls = C.InjectedZeroDivisionError
         C.ARM["exc"] = exc_cls
+        # one fault in three is raised WITHOUT arguments (raise Fault / raise Fault()): exc.args == ()
+        C.ARM["bare"] = (k + 2 * len(prefix)) % 3 == 0
+        if C.ARM["bare"]:
+            counters["faults_raised_without_arguments"] = counters.get("faults_raised_without_arguments", 0) + 1
         counters.setdefault("fault_classes", {})
         counters["fault_classes"][exc_cls.__name__] = counters["fault_classes"].get(exc_cls.__name__, 0) + 1
         del C.EVENTS[:]
@@ -157,8 +161,13 @@ def one_update(world, prefix, op, counters, digests, violations, known, rng, sam
         if raised is None:
             violations.append(dict(wit, what="C18 fault at %s #%d was swallowed: the assignment returned normally" % (kind, k)))
             return
-        if not C.is_injected(raised):
-            counters["exceptions_translated"] = counters.get("exceptions_translated", 0) + 1
+        # "the exception reaches the caller": what the caller catches is (an instance of the class of) the exception the
+        # failing task / write raised -- not another exception raised on the way (a caller's `except TheFault:` must fire)
+        if not isinstance(raised, exc_cls):
+            violations.append(dict(wit, what="C18 the %s fault #%d raised %s(%s) but the caller got %s: %s" % (
+                kind, k, exc_cls.__name__, "" if C.ARM.get("bare") else "message", type(raised).__name__, str(raised)[:120])))
+            return
+        counters["exceptions_reaching_the_caller"] = counters.get("exceptions_reaching_the_caller", 0) + 1
         before = ev[:fault_at[0]]
         after = ev[fault_at[0] + 1:]
         if after:
